@@ -4,6 +4,7 @@ from __future__ import annotations
 import ast
 
 from rules.setuse import parents_of
+from . import generic
 from sa.absint import Evaluator, flatten_effects
 from sa.escape import ANY, BYTES_U, HANY, TRUSTED, FunctionAnalysis, Val, exc_is, tval
 from sa.index import AnalysisError, walk_no_nested
@@ -336,8 +337,7 @@ def validate_before_decode(ctx):
     R.rule("C17-D4b length pre-validation", 2, "empty input and over-long declared lengths are rejected before decoding")
     vouts = Evaluator(repo, inline_depth=0).outcomes(va)
     params = [a.arg for a in va.node.args.args if a.arg not in ("cls", "self")]
-    if len(params) != 1:
-        raise AnalysisError("validate_cbor: expected one data parameter")
+    params = generic.sole_outcome(ctx, params, "validate_cbor: expected one data parameter")
     P = Sym("param:" + params[0])
     LEN = App("len", (P,))
     raises = [o for o in vouts if o.kind == "raise" and _raises_allowed(o)]
